@@ -41,6 +41,9 @@ func (r *ComDoc) readDir() error {
 			return err
 		}
 		for i, raw := range raw {
+			if raw.Type != DirEmpty && (raw.NameLength < 2 || raw.NameLength > 64 || raw.NameLength%2 != 0) {
+				return errors.New("directory entry has an invalid name length")
+			}
 			cooked[i] = DirEnt{
 				RawDirEnt: raw,
 				Index:     len(files) + i,
